@@ -667,12 +667,29 @@ class Rewriter:
             # `drain` is dropped when Splice::drop returns (Drop glue): made explicit before every `return` and at the end
             b = self.sub('R19:for_each-drop', r'\bself\.drain\.by_ref\(\)\.for_each\(drop\);',
                          'loop {\n            match self.drain.next(hs, Ghost(*vec)) {\n                Some(x__) => {\n                    elem_drop(ds, x__);\n                }\n                None => { break; }\n            }\n        };', b)
+            b = self.sub('R22:vec-backref', r'(?m)^\s*let (?:mut )?vec = self\.drain\.vec\.as_mut\(\);\s*$', '', b)
             b = self.sub('R22:vec-backref', r'\bself\.drain\.vec\.as_mut\(\)\.', 'vec.', b)
             b = self.sub('R22:vec-backref', r'\bself\.drain\.vec\.as_ref\(\)\.', 'vec.', b)
             b = self.sub('R30:drop-glue', r'\breturn;', '{ self.drain.drop(hs, ds, vec); return; }', b)
             k = b.rindex('}')
             b = b[:k] + '    self.drain.drop(hs, ds, vec); /* R30: Drop glue of the field `drain` */\n    ' + b[k:]
             b = self.sub('R30:into-itm', r'\bcollected\.into_iter\(\)', 'vec_into_itm(hs, collected)', b)
+            # Drop glue of the temporary `collected` Vec: if it is not consumed by `into_iter()`, `Vec::drop` runs on it where its block ends
+            if re.search(r'let mut collected = Vec(?:M)?::new_in', b) and 'vec_into_itm(hs, collected)' not in b:
+                mm = mask(b)
+                k0 = re.search(r'let mut collected = Vec(?:M)?::new_in', mm).start()
+                depth, j = 0, k0
+                while j >= 0:
+                    if mm[j] == '}':
+                        depth += 1
+                    elif mm[j] == '{':
+                        if depth == 0:
+                            break
+                        depth -= 1
+                    j -= 1
+                cpos = match_close(mm, j)
+                b = b[:cpos] + '    collected.drop(hs, ds); /* R30: Drop glue of the local `collected` */\n        ' + b[cpos:]
+                self.fired('R30:drop-glue-local')
             b = self.map_calls(b, r'\bself\.drain\.fill', lambda m_, a: 'self.drain.fill(hs, vec, %s)' % ', '.join(a), 'R12:thread-heap')
             b = self.map_calls(b, r'\bself\.drain\.move_tail', lambda m_, a: 'self.drain.move_tail(hs, vec, %s)' % ', '.join(a), 'R12:thread-heap')
         # R12: thread the ghost heap through the calls that take it
